@@ -22,7 +22,7 @@ ASSUMPTIONS = [
     "a local URL is resolved as a browser would for a file: URL path only, percent-decoded, joined to the directory of the written file",
 ]
 
-COMP_HOT = [" ", "%", "#", "?", "&", "'", '"', "\\", "\xe9", "中", "a", "b", "1", ".", "-", "+", "=", "%20", "%2F", ";", ":", "@", "~", "\U0001F600", "\n", "\t", "<", ">"]
+COMP_HOT = ["e\u0301", "\u212b", "A\u030a", "\u2126", "\ufb01", " ", "%", "#", "?", "&", "'", '"', "\\", "\xe9", "中", "a", "b", "1", ".", "-", "+", "=", "%20", "%2F", ";", ":", "@", "~", "\U0001F600", "\n", "\t", "<", ">"]
 
 
 def component():
@@ -59,6 +59,7 @@ def case_strategy():
             "caller": st.sampled_from(["doc", "tag", "list"]),
             "missing": st.lists(st.integers(0, 5), max_size=2),
             "fault": st.booleans(),
+            "fault_later": st.booleans(),
             "extra_url_dep": st.booleans(),
         }
     )
@@ -268,6 +269,27 @@ def _run(case, note, tmp):
         # only the html file itself may be new (when libdir is empty/None it lives in destdir)
         strip = lambda s: [e for e in (s or []) if e[0] != "index page.html"]
         check(strip(after) == strip(before_all), "URL-sourced / source-less dependency changed the destination directory")
+    # second phase: a listed file disappears after a successful copy; copying again must raise, target untouched
+    later_fault = False
+    if local and src_kind != "libtest" and not all_files and listed and case.get("fault_later"):
+        victim = listed[case["missing"][0] % len(listed)] if case["missing"] else listed[0]
+        os.remove(os.path.join(srcroot, *victim.split("/")))
+        before = snapshot_dir(target)
+        try:
+            dep.copy_to(destdir, include_version=iv)
+            raised = False
+        except Exception:  # noqa
+            raised = True
+        check(raised, "copy_to() did not raise for a listed file that went missing after an earlier successful copy", victim)
+        check(snapshot_dir(target) == before, "copy_to() touched the target directory before failing (file missing after an earlier copy)")
+        try:
+            _save(h, h.HTMLDependency(case["name"], case["version"], source=source, script=[{"src": s} for s in scripts], stylesheet=[{"href": s} for s in sheets]), case, htmlfile, libdir, iv)
+            raised = False
+        except Exception:  # noqa
+            raised = True
+        check(raised, "save_html() with an equal, newly built dependency did not raise for the missing file")
+        check(snapshot_dir(target) == before, "save_html() touched the target directory before failing")
+        later_fault = True
     need_enc = any(D.pct(r) != r for r in scripts + sheets)
     note(
         local and need_enc and (any("/" in r for r in scripts + sheets) or libdir != "lib" or not iv),
@@ -276,6 +298,7 @@ def _run(case, note, tmp):
         "pre:" + case["pre"] if local else "",
         "caller:" + case["caller"],
         "libdir:" + repr(libdir),
+        "fault-after-success" if later_fault else "",
     )
     return added_path, pkgname
 
@@ -316,7 +339,7 @@ CLAUSES = [
         quick=600,
         thorough=5000,
         shards_quick=4,
-        required=("fault", "src:dir", "src:pkg", "src:url", "src:none", "src:libtest", "all_files", "pre:stale", "caller:tag", "caller:list", "caller:doc"),
+        required=("fault", "fault-after-success", "src:dir", "src:pkg", "src:url", "src:none", "src:libtest", "all_files", "pre:stale", "caller:tag", "caller:list", "caller:doc"),
         rule="see RULE",
     ),
 ]
